@@ -278,12 +278,16 @@ def run(pid, tier, seed):
         validated += gi - pending_from
         pending_from = nxt
     sample = {"frames": [len(f) for f in hist[0][1]], "steps": [(s["a"], len(s.get("bytes", []))) for s in hist[0][0]["steps"][:12]]}
+    # the framing end to end: STUN over two byte streams (StunTcpExchange.tla)
+    from tcpxcheck import tcpx_binding
+    xstats = tcpx_binding(pid, tier, seed, wd, rep)
+    rep.add_cov(stun_over_byte_streams=xstats)
     rep.add_cov(states=mc["distinct"] + lres["distinct"], transitions=mc["generated"] + lres["generated"],
                 traces_validated_against_impl=len(js) + len(hist), samples=[sample],
                 lts_edges=nedges, lts_edges_driven=len(covered), lts_scripts=len(js), lts_steps=steps_total,
                 trace_lines_validated=validated, trace_histories=len(hist), tlc_trace_runs=tlc_runs,
                 max_frame_len=max([len(f) for h in hist for f in h[1]] + [0]),
-                rule="MCTcpFraming: all frame sequences (lengths 0..2, bytes 0..2, optional incomplete tail) with encoded length <= MaxStream, all chunkings, all push/pull interleavings; every LTS edge executed on TcpBuffer; random real-size frame sequences with random chunking validated by TLC (TcpFramingTrace)")
+                rule="MCTcpFraming: all frame sequences (lengths 0..2, bytes 0..2, optional incomplete tail) with encoded length <= MaxStream, all chunkings, all push/pull interleavings; every LTS edge executed on TcpBuffer; random real-size frame sequences with random chunking validated by TLC (TcpFramingTrace); StunTcpExchange: a TCP-transport agent, two TcpBuffers and a server joined by byte streams with every segmentation up to MaxChunk (frames pulled = frames sent, in order, once; no retransmission over TCP), LTS bound to the real agent and buffers")
     rep.assumptions += ["TLC + Json/IOUtils modules trusted", "frames longer than 2 bytes are sampled (B2), not enumerated"]
     shutil.rmtree(wd, ignore_errors=True)
     return rep.finish()
